@@ -577,5 +577,541 @@ def standin_golden_prefixes(tier, seed):
     return dict(name='golden_prefixes', bound=bound, cases=len(cases), status='ok')
 
 
-# @@CLOSURES@@
-STANDINS = [standin_prefix_values, standin_prefix_values_build, standin_scope_eval, standin_scope_build, standin_reserved_positions, standin_golden_prefixes]
+# ================================================================== closures: every function VALUE carries its own captured scope
+# A second, richer reference interpreter ("mini-UCG") for programs in which function values are produced by other functions, by map /
+# reduce callbacks and by module instantiations, are stored in tuples and lists, passed as arguments and called in every order and
+# repeatedly with equal arguments.  It follows the statement (and reference/expressions.md "Functions", "Modules", "Copy Expressions")
+# literally:
+#   * evaluating `func (p..) => body` yields a value that holds a COPY of the bindings visible at that point -- one copy per evaluation,
+#     so two values made by the same `func` expression under different bindings are different functions;
+#   * a call evaluates the body in that copy plus the arguments (nothing of the caller, nothing bound later, no memory of earlier calls);
+#   * every `m{..}` instantiation evaluates the module's statements afresh over `mod` (defaults overridden by the arguments) alone;
+#   * `self` inside the body of a copy expression is the base tuple of the innermost enclosing copy (used by the C01 stand-ins).
+# Values: int, list, tuple (dict), Clos, CModule.  Function and module values are displayed as NULL by the driver.
+TI = ('I',)
+
+
+def TF(ps, r):
+    return ('F', tuple(ps), r)
+
+
+F1 = TF([TI], TI)
+F2 = TF([TI, TI], TI)
+FF1 = TF([TI], F1)
+FF2 = TF([TI, TI], F1)
+FFF1 = TF([TI], FF1)
+HO = TF([F1, TI], TI)
+WR = TF([F1], F1)
+LIMIT = 2 ** 40
+
+
+class TooBig(Exception):
+    pass
+
+
+class Clos:
+    def __init__(self, params, body, env):
+        self.params, self.body, self.env = params, body, env
+
+
+class CModule:
+    def __init__(self, params, lets):
+        self.params, self.lets = params, lets       # [(name, default ast)], [(name, ast)]
+
+
+def ccall(f, args):
+    inner = dict(f.env)                               # the bindings that existed where THIS function value was made ...
+    inner.update(zip(f.params, args))                 # ... plus its arguments
+    return cev(f.body, inner, None)
+
+
+def cev(a, env, selfv=None):
+    k = a[0]
+    if k == 'int':
+        return a[1]
+    if k == 'ref':
+        return env[a[1]]
+    if k == 'self':
+        if selfv is None:
+            raise KeyError('self')
+        return selfv
+    if k == 'fld':
+        return cev(a[1], env, selfv)[a[2]]
+    if k == 'idx':
+        return cev(a[1], env, selfv)[a[2]]
+    if k == 'bin':
+        x, y = cev(a[2], env, selfv), cev(a[3], env, selfv)
+        r = x + y if a[1] == '+' else x - y if a[1] == '-' else x * y
+        if isinstance(r, int) and abs(r) >= LIMIT:
+            raise TooBig()
+        return r
+    if k == 'func':
+        return Clos(a[1], a[2], dict(env))
+    if k == 'call':
+        f = cev(a[1], env, selfv)
+        return ccall(f, [cev(x, env, selfv) for x in a[2]])
+    if k == 'list':
+        return [cev(x, env, selfv) for x in a[1]]
+    if k == 'tuple':
+        return dict((n, cev(x, env, selfv)) for n, x in a[1])
+    if k == 'map':
+        f = cev(a[1], env, selfv)
+        return [ccall(f, [x]) for x in cev(a[2], env, selfv)]
+    if k == 'reduce':
+        f, acc = cev(a[1], env, selfv), cev(a[2], env, selfv)
+        for x in cev(a[3], env, selfv):
+            acc = ccall(f, [acc, x])
+        return acc
+    if k == 'module':
+        return CModule(a[1], a[2])
+    if k == 'inst':
+        m = cev(a[1], env, selfv)
+        params = dict((n, cev(x, {}, None)) for n, x in m.params)
+        params.update((n, cev(x, env, selfv)) for n, x in a[2])
+        inner = {'mod': params}                       # a module body sees only `mod` and its own lets; each instantiation afresh
+        for n, x in m.lets:
+            inner[n] = cev(x, inner, None)
+        return dict((n, inner[n]) for n, _ in m.lets)
+    if k == 'copy':
+        base = cev(a[1], env, selfv)                  # the base is evaluated where the copy stands (an outer copy's self is still visible)
+        res = dict(base)
+        for n, x in a[2]:
+            res[n] = cev(x, env, base)                # self = the base tuple of THIS copy, for every field of its body
+        return res
+    raise ValueError(k)
+
+
+def csrc(a):
+    k = a[0]
+    if k == 'int':
+        return str(a[1])
+    if k == 'ref':
+        return a[1]
+    if k == 'self':
+        return 'self'
+    if k == 'fld':
+        return '%s.%s' % (csrc(a[1]), a[2])
+    if k == 'idx':
+        return '%s.%d' % (csrc(a[1]), a[2])
+    if k == 'bin':
+        return '(%s %s %s)' % (csrc(a[2]), a[1], csrc(a[3]))
+    if k == 'func':
+        return 'func (%s) => %s' % (', '.join(a[1]), csrc(a[2]))
+    if k == 'call':
+        return '%s(%s)' % (csrc(a[1]), ', '.join(csrc(x) for x in a[2]))
+    if k == 'list':
+        return '[%s]' % ', '.join(csrc(x) for x in a[1])
+    if k == 'tuple':
+        return '{%s}' % ', '.join('%s = %s' % (n, csrc(x)) for n, x in a[1])
+    if k == 'map':
+        return 'map(%s, %s)' % (csrc(a[1]), csrc(a[2]))
+    if k == 'reduce':
+        return 'reduce(%s, %s, %s)' % (csrc(a[1]), csrc(a[2]), csrc(a[3]))
+    if k == 'module':
+        return 'module {%s} => { %s }' % (', '.join('%s = %s' % (n, csrc(x)) for n, x in a[1]), ' '.join('let %s = %s;' % (n, csrc(x)) for n, x in a[2]))
+    if k in ('inst', 'copy'):
+        return '%s{%s}' % (csrc(a[1]), ', '.join('%s = %s' % (n, csrc(x)) for n, x in a[2]))
+    raise ValueError(k)
+
+
+def cshow(v):
+    """canonical text of a value: the driver's Display without blanks, tuple fields sorted by name (the statement does not speak of order)"""
+    if isinstance(v, (Clos, CModule)) or v is None:
+        return 'NULL'
+    if isinstance(v, bool):
+        return 'true' if v else 'false'
+    if isinstance(v, dict):
+        return '{' + ','.join('%s=%s' % (n, cshow(x)) for n, x in sorted(v.items())) + '}'
+    if isinstance(v, list):
+        return '[' + ','.join(cshow(x) for x in v) + ']'
+    if isinstance(v, str):
+        return '"%s"' % v.replace('\\', '\\\\').replace('"', '\\"')
+    return str(v)
+
+
+def canon(text):
+    """normalised Display text with the fields of every tuple sorted by name; None if it does not parse"""
+    s = norm(text)
+
+    def skipstr(i):
+        i += 1
+        while s[i] != '"':
+            i += 2 if s[i] == '\\' else 1
+        return i + 1
+
+    def val(i):
+        c = s[i]
+        if c == '{':
+            i += 1
+            items = []
+            while s[i] != '}':
+                j = skipstr(i) if s[i] == '"' else i
+                while s[j] != '=':
+                    j += 1
+                v, nxt = val(j + 1)
+                items.append((s[i:j], v))
+                i = nxt + 1 if s[nxt] == ',' else nxt
+            return '{' + ','.join('%s=%s' % x for x in sorted(items)) + '}', i + 1
+        if c == '[':
+            i += 1
+            items = []
+            while s[i] != ']':
+                v, nxt = val(i)
+                items.append(v)
+                i = nxt + 1 if s[nxt] == ',' else nxt
+            return '[' + ','.join(items) + ']', i + 1
+        if c == '"':
+            j = skipstr(i)
+            return s[i:j], j
+        j = i
+        while j < len(s) and s[j] not in ',]}':
+            j += 1
+        return s[i:j], j
+    try:
+        v, i = val(0)
+        return v if i == len(s) else None
+    except IndexError:
+        return None
+
+
+def cfields(out):
+    """top-level `{name = value, ...}` -> {name: canonical value text}"""
+    f = fields(out)
+    if f is None:
+        return None
+    return dict((n, canon(v)) for n, v in f.items())
+
+
+def clit(v):
+    """UCG source of an int / list-of-int value (there are no negative literals)"""
+    if isinstance(v, list):
+        return '[%s]' % ', '.join(clit(x) for x in v)
+    return str(v) if v >= 0 else '(0 - %d)' % -v
+
+
+def pinnable(v):
+    return (isinstance(v, int) and not isinstance(v, bool)) or (isinstance(v, list) and all(pinnable(x) for x in v))
+
+
+def pins(name, v):
+    """(path, literal) for every part of the value of `name` that has a literal: ints, lists of ints, the same inside tuples"""
+    if pinnable(v):
+        return [(name, clit(v))]
+    if isinstance(v, dict):
+        return [p for n, x in v.items() for p in pins('%s.%s' % (name, n), x)]
+    if isinstance(v, list):
+        return [p for i, x in enumerate(v) for p in pins('%s.%d' % (name, i), x)]
+    return []
+
+
+CNAMES = ['a', 'b', 'c', 'd', 'f', 'g', 'h', 'k', 'm', 'n', 'p', 'q', 'r', 't', 'u', 'v', 'w', 'x', 'y', 'z', 'acc', 'item']
+CPARAMS = ['a', 'b', 'n', 'x', 'y', 'k', 'f', 'acc', 'item']
+
+
+class CGen:
+    """typed random programs: int bindings, functions, function factories (depth <= 3), instances of factories, lists of closures built by
+    map / list literals, tuples holding closures, higher-order functions, modules defining closures over `mod` and their instantiations;
+    int arguments come from a tiny pool so that different closures are called with EQUAL arguments again and again"""
+
+    def __init__(self, rnd, ty=None, env=None, kinds=None, maxdepth=3):
+        self.rnd = rnd
+        self.ty = dict(ty or {})
+        self.env = dict(env or {})
+        self.kinds = kinds
+        self.maxdepth = maxdepth
+        self.stmts, self.after, self.lets = [], [], []
+        self.ambient = [('fld', ('ref', 'mod'), n) for n, _ in self.ty['mod'][1]] if 'mod' in self.ty else []
+
+    # ---- what can be named in a scope
+    def paths(self, sc):
+        out = []
+
+        def walk(e, t, idx):
+            out.append((e, t, idx))
+            if t[0] == 'T':
+                for fn, ft in t[1]:
+                    walk(('fld', e, fn), ft, idx)
+            elif t[0] == 'L':
+                for i in range(t[2]):
+                    walk(('idx', e, i), t[1], True)
+        for n, t in sc.items():
+            if t[0] != 'M':
+                walk(('ref', n), t, False)
+        return out
+
+    def small(self):
+        return ('int', self.rnd.choice([1, 2, 2, 3, 5, 7]))
+
+    def params(self, n):
+        return self.rnd.sample(CPARAMS, n)
+
+    def call(self, callee, sc, d, loc):
+        e, et = callee
+        args = []
+        for pt in et[1]:
+            if pt == TI and self.rnd.random() < 0.6:
+                args.append(self.small())
+            else:
+                args.append(self.gen(pt, sc, d - 1, loc))
+        return ('call', e, args)
+
+    def lam(self, t, sc, d, loc):
+        """a new function value of type t; loc = the parameters of the enclosing functions (innermost first)"""
+        rnd = self.rnd
+        pool = [n for n in CPARAMS if n not in loc] if rnd.random() < 0.7 else CPARAMS     # sometimes an inner parameter hides an outer one
+        names = rnd.sample(pool, len(t[1]))
+        sc2 = dict(sc)
+        for n, pt in zip(names, t[1]):
+            sc2[n] = pt
+        loc2 = tuple(names) + tuple(x for x in loc if x not in names)
+        body = self.gen(t[2], sc2, max(d - 1, 0), loc2)
+        if t[2] == TI:
+            ints = [n for n in loc2 if sc2[n] == TI]
+            for n in loc2:                           # the arguments and the captured values matter
+                if rnd.random() < 0.85:
+                    if sc2[n] == TI:
+                        body = ('bin', rnd.choice('+*-'), ('ref', n), body) if rnd.random() < 0.5 else ('bin', rnd.choice('+-'), body, ('bin', '*', ('ref', n), self.small()))
+                    elif sc2[n] == F1:
+                        body = ('bin', '+', ('call', ('ref', n), [('ref', rnd.choice(ints)) if ints and rnd.random() < 0.6 else self.small()]), body)
+            for e in self.ambient:                   # a module's parameters matter for the closures its body defines
+                if rnd.random() < 0.6:
+                    body = ('bin', rnd.choice('+-'), body, ('bin', '*', e, self.small()))
+        return ('func', names, body)
+
+    def gen(self, t, sc, d, loc=()):
+        rnd = self.rnd
+        ps = self.paths(sc)
+        at = [e for e, et, _ in ps if et == t]
+        calls = [(e, et) for e, et, idx in ps if et[0] == 'F' and et[2] == t and not idx] if d > 0 else []
+        k = t[0]
+        if k == 'I':
+            locs = [n for n in loc if sc.get(n) == TI]
+            lfs = [e for e, et, _ in ps if et[0] == 'L' and et[1] == F1] if d > 0 else []
+            opts = ['lit'] * 2 + ['atom'] * 2 * bool(at) + ['loc'] * 3 * bool(locs)
+            if d > 0:
+                opts += ['bin'] * 3 + ['call'] * 7 * bool(calls) + ['red'] * 2 * bool(lfs)
+            c = rnd.choice(opts)
+            if c == 'lit':
+                return self.small()
+            if c == 'atom':
+                return rnd.choice(at)
+            if c == 'loc':
+                return ('ref', rnd.choice(locs))
+            if c == 'bin':
+                return ('bin', rnd.choice('++*-'), self.gen(TI, sc, d - 1, loc), self.gen(TI, sc, d - 1, loc))
+            if c == 'call':
+                return self.call(rnd.choice(calls), sc, d, loc)
+            pa, pf = self.params(2)                   # every closure of a list applied to the same argument
+            sc2 = dict(sc)
+            sc2[pa] = TI
+            sc2[pf] = F1
+            arg = self.small() if rnd.random() < 0.6 else self.gen(TI, sc2, 0, tuple(x for x in loc if x not in (pa, pf)))
+            return ('reduce', ('func', [pa, pf], ('bin', '+', ('bin', '*', ('ref', pa), ('int', 3)), ('call', ('ref', pf), [arg]))), ('int', 0), rnd.choice(lfs))
+        if k == 'F':
+            if loc:                                   # inside a function: make a NEW function value that captures the parameters
+                opts = ['atom'] * bool(at) + ['call'] * 2 * bool(calls) + ['lam'] * 8
+            else:
+                opts = ['atom'] * 2 * bool(at) + ['call'] * 6 * bool(calls) + ['lam'] * 2
+            c = rnd.choice(opts)
+            if c == 'atom':
+                return rnd.choice(at)
+            if c == 'call':
+                return self.call(rnd.choice(calls), sc, d, loc)
+            return self.lam(t, sc, d, loc)
+        if k == 'L':
+            el, n = t[1], t[2]
+            opts = ['atom'] * bool(at) + ['lit'] * 2 + ['map'] * 4 * (d > 0)
+            c = rnd.choice(opts)
+            if c == 'atom':
+                return rnd.choice(at)
+            if c == 'lit':
+                return ('list', [self.gen(el, sc, max(d - 1, 0), loc) for _ in range(n)])
+            srcs = [e for e, et, _ in ps if et == ('L', TI, n)]
+            fsrcs = [e for e, et, _ in ps if et == ('L', F1, n)] if el == TI else []
+            if fsrcs and rnd.random() < 0.5:          # apply every closure of a list
+                p = self.params(1)[0]
+                sc2 = dict(sc)
+                sc2[p] = F1
+                arg = self.small() if rnd.random() < 0.6 else self.gen(TI, sc2, 0, tuple(x for x in loc if x != p))
+                return ('map', ('func', [p], ('call', ('ref', p), [arg])), rnd.choice(fsrcs))
+            src_ = rnd.choice(srcs) if srcs and rnd.random() < 0.4 else ('list', [('int', x) for x in rnd.sample([1, 2, 3, 4, 5, 10], n)])
+            return ('map', self.lam(TF([TI], el), sc, d, loc), src_)
+        if k == 'T':
+            return ('tuple', [(n, self.gen(ft, sc, max(d - 1, 0), loc)) for n, ft in t[1]])
+        raise ValueError(t)
+
+    # ---- statements
+    def fresh(self):
+        free = [n for n in CNAMES if n not in self.ty and n != 'mod']
+        return self.rnd.choice(free) if free else None
+
+    def statement(self):
+        """(type, ast) of the value bound by the next statement"""
+        rnd = self.rnd
+        sc = self.ty
+        ps = self.paths(sc)
+        makers = [(e, et) for e, et, idx in ps if et[0] == 'F' and et[2][0] == 'F' and not idx]
+        intcallables = [(e, et) for e, et, idx in ps if et[0] == 'F' and et[2] == TI and not idx and all(pt == TI for pt in et[1])]
+        picks = [(e, et) for e, et, idx in ps if idx and et[0] == 'F']
+        mods = [n for n, t in sc.items() if t[0] == 'M']
+        kinds = ['int'] * 3 + ['func'] * 2 + ['factory'] * (3 if makers else 8) + ['instance'] * 8 * bool(makers) + ['calls'] * 8 * bool(len(intcallables) > 1)
+        kinds += ['maplist'] * 2 + ['list'] * 1 * bool(makers) + ['tuple'] * 2 * bool(makers) + ['pick'] * 4 * bool(picks) + ['module'] * 2 + ['inst'] * 6 * bool(mods)
+        if self.kinds:
+            kinds = [x for x in kinds if x in self.kinds]
+        c = rnd.choice(kinds)
+        if c == 'int':
+            e = self.gen(TI, sc, self.maxdepth)
+            for m in self.ambient:
+                if rnd.random() < 0.6:
+                    e = ('bin', rnd.choice('+-'), e, ('bin', '*', m, self.small()))
+            return TI, e
+        if c == 'func':
+            t = rnd.choice([F1, F1, F2, HO])
+            return t, self.lam(t, sc, 2, ())
+        if c == 'factory':
+            t = rnd.choice([FF1, FF1, FF2, FFF1, WR])
+            return t, self.lam(t, sc, 2, ())
+        if c == 'instance':
+            e, et = rnd.choice(makers)
+            return et[2], self.call((e, et), sc, 2, ())
+        if c == 'calls':
+            # every int function of one type called with the SAME arguments, in a random order, some twice
+            t = rnd.choice(sorted(set(et for e, et in intcallables)))
+            fs = [e for e, et in intcallables if et == t]
+            fs = fs + rnd.sample(fs, min(len(fs), 2))
+            rnd.shuffle(fs)
+            fs = fs[:5]
+            args = [self.small() for _ in t[1]]
+            return ('L', TI, len(fs)), ('list', [('call', e, list(args)) for e in fs])
+        if c == 'maplist':
+            t = ('L', rnd.choice([F1, F1, TI]), rnd.randint(2, 3))
+            return t, self.gen(t, sc, 2)
+        if c == 'list':
+            e, et = rnd.choice(makers)
+            n = rnd.randint(2, 3)
+            return ('L', et[2], n), ('list', [self.call((e, et), sc, 1, ()) for _ in range(n)])
+        if c == 'tuple':
+            e, et = rnd.choice(makers)
+            fns = rnd.sample(['f', 'g', 'h', 'k', 'n', 'x'], 3)
+            t = ('T', ((fns[0], et[2]), (fns[1], et[2]), (fns[2], TI)))
+            return t, ('tuple', [(fns[0], self.call((e, et), sc, 1, ())), (fns[1], self.call((e, et), sc, 1, ())), (fns[2], self.gen(TI, sc, 1))])
+        if c == 'pick':
+            e, et = rnd.choice(picks)
+            return et, e
+        if c == 'module':
+            pnames = self.params(rnd.randint(1, 2))
+            pvals = [rnd.randint(1, 9) for _ in pnames]
+            sub = CGen(rnd, {'mod': ('T', tuple((n, TI) for n in pnames))}, {'mod': dict(zip(pnames, pvals))},
+                       kinds=['int', 'func', 'factory', 'instance', 'calls'], maxdepth=2)
+            for _ in range(rnd.randint(2, 4)):
+                sub.step()
+            if not sub.lets:
+                return None
+            t = ('M', tuple(pnames), ('T', tuple((n, sub.ty[n]) for n, _ in sub.lets)))
+            return t, ('module', [(n, ('int', v)) for n, v in zip(pnames, pvals)], list(sub.lets))
+        if c == 'inst':
+            m = rnd.choice(mods)
+            over = [(n, self.small() if rnd.random() < 0.7 else self.gen(TI, sc, 1)) for n in sc[m][1] if rnd.random() < 0.75]
+            return sc[m][2], ('inst', ('ref', m), over)
+        raise ValueError(c)
+
+    def step(self):
+        name = self.fresh()
+        if name is None:
+            return False
+        for _ in range(6):
+            st = self.statement()
+            if st is None:
+                continue
+            t, a = st
+            try:
+                v = cev(a, self.env)
+            except TooBig:
+                continue
+            self.ty[name] = t
+            self.env[name] = v
+            self.lets.append((name, a))
+            self.stmts.append('let %s = %s;' % (name, csrc(a)))
+            self.after.append(dict((n, cshow(x)) for n, x in self.env.items() if n != 'mod'))
+            return True
+        return False
+
+
+def closure_programs(rnd, n, length):
+    out = []
+    for _ in range(n):
+        g = CGen(rnd)
+        while len(g.stmts) < length and g.step():
+            pass
+        out.append(g)
+    return out
+
+
+CLOSURE_GEN_BOUND = ('%d seeded typed programs of <= %d statements over ints, functions, function factories of depth <= 3, instances of factories, lists of closures built by map '
+                     'callbacks and list literals, tuples holding closures, functions taking / wrapping closures, closures picked out of lists, modules whose bodies define closures '
+                     'over `mod` and several instantiations of each; arguments from a pool of 5 ints so that closures of one `func` expression are called with equal arguments, '
+                     'in random order and repeatedly; parameter names from a pool of %d that coincide with outer bindings (inner scopes shadow without rebinding)')
+
+
+def standin_closure_prefixes(tier, seed):
+    """reference interpreter vs the real evaluation, every prefix of every program"""
+    rnd = random.Random(seed + 77)
+    progs = closure_programs(rnd, 150 if tier == 'thorough' else 30, 12)
+    cases, meta = [], []
+    for g in progs:
+        for k in range(1, len(g.stmts) + 1):
+            cases.append('\n'.join(g.stmts[:k]))
+            meta.append((g, k))
+    res = R.driver('eval', cases)
+    bound = CLOSURE_GEN_BOUND % (len(progs), 12, len(CPARAMS)) + ', cut at every statement boundary'
+    for src_, (g, k), (st, out) in zip(cases, meta, res):
+        exp = g.after[k - 1]
+        got = cfields(out) if st == 'OK' else None
+        if got != exp:
+            whole = '\n'.join(g.stmts)
+            why = 'status %s %s' % (st, out[:200]) if got is None else '; '.join(
+                ['%s = %s, expected %s' % (n, got.get(n, '(unbound)'), exp.get(n, '(unbound)')) for n in sorted(set(got) | set(exp)) if got.get(n) != exp.get(n)])
+            return dict(name='closure_prefixes', bound=bound, cases=len(cases), status='violation',
+                        detail='after the first %d statement(s) of `%s`: %s' % (k, whole.replace('\n', ' '), why.replace('\n', ' ')),
+                        input=dict(source=src_, whole_program=whole, expected=json.dumps(exp, sort_keys=True), observed='%s %s' % (st, out[:600]), how=HOW['eval']))
+    return dict(name='closure_prefixes', bound=bound, cases=len(cases), status='ok')
+
+
+def pinned(stmts, envs_after):
+    """the program with `select (path == value) => {true = 1}` after each binding and again at the end (no default: a different value is a build error)"""
+    lines, tail, n, prev = [], [], 0, set()
+    for s, aft in zip(stmts, envs_after):
+        lines.append(s)
+        for x, v in aft.items():
+            if x in prev:
+                continue
+            for path, val in pins(x, v):
+                lines.append('let chk%d = select (%s == %s) => {true = 1};' % (n, path, val)); n += 1
+                tail.append('let chk%d = select (%s == %s) => {true = 1};' % (n, path, val)); n += 1
+        prev = set(aft)
+    return '\n'.join(lines + tail)
+
+
+def standin_closure_build(tier, seed):
+    rnd = random.Random(seed + 1077)
+    progs = closure_programs(rnd, 300 if tier == 'thorough' else 60, 12)
+    cases = []
+    for g in progs:
+        envs, env = [], {}
+        for n, a in g.lets:
+            env[n] = g.env[n]
+            envs.append(dict(env))
+        cases.append(pinned(g.stmts, envs))
+    res = R.driver('buildfile', cases)
+    bound = CLOSURE_GEN_BOUND % (len(progs), 12, len(CPARAMS)) + '; every int / int list (also inside tuples and lists) pinned to the reference value right after its binding and again at the end of the file'
+    for src_, (st, out) in zip(cases, res):
+        if st != 'OK':
+            return dict(name='closure_build', bound=bound, cases=len(cases), status='violation',
+                        detail='a valid program whose bindings are pinned to their reference values does not build: %s %s' % (st, out[:300].replace('\n', ' ')),
+                        input=dict(source=src_, expected='builds (every chkN select finds its `true` case)', observed='%s %s' % (st, out[:600]), how=HOW['buildfile']))
+    return dict(name='closure_build', bound=bound, cases=len(cases), status='ok')
+
+
+# @@TEMPLATES@@
+STANDINS = [standin_prefix_values, standin_prefix_values_build, standin_scope_eval, standin_scope_build, standin_reserved_positions, standin_golden_prefixes,
+            standin_closure_prefixes, standin_closure_build]
